@@ -64,6 +64,18 @@ func deepInstrsScope(root *ssa.Function, depth int, prune func(*ssa.Function) bo
 						walk(cal, s, append(append([]*ssa.Call{}, chain...), call), seen, d-1)
 						delete(seen, cal)
 					}
+					// a function literal of fn handed to a helper that does nothing with it but call it (t.locked(func() { … })):
+					// the literal's body runs here, synchronously
+					if cal != nil && cal.Blocks != nil && inScope(cal) {
+						for ai, a := range call.Call.Args {
+							lit := literalOf(a, fn)
+							if lit != nil && !seen[lit] && onlyCallsParam(cal, ai) {
+								seen[lit] = true
+								walk(lit, s, chain, seen, d-1)
+								delete(seen, lit)
+							}
+						}
+					}
 				}
 			}
 		}
@@ -258,4 +270,40 @@ func deepFactStrings(d deepInstr) []string {
 		}
 	}
 	return out
+}
+
+// literalOf: v is a function literal declared in fn (a closure or a capture-free literal).
+func literalOf(v ssa.Value, fn *ssa.Function) *ssa.Function {
+	switch x := v.(type) {
+	case *ssa.MakeClosure:
+		if f, ok := x.Fn.(*ssa.Function); ok && f.Parent() == fn {
+			return f
+		}
+	case *ssa.Function:
+		if x.Parent() == fn {
+			return x
+		}
+	}
+	return nil
+}
+
+// onlyCallsParam: every use of parameter #idx of h is a direct, synchronous call of it (not stored, passed on, deferred,
+// captured or started as a goroutine) and there is at least one.
+func onlyCallsParam(h *ssa.Function, idx int) bool {
+	h = origin(h)
+	if idx >= len(h.Params) || h.Params[idx].Referrers() == nil {
+		return false
+	}
+	n := 0
+	for _, ref := range *h.Params[idx].Referrers() {
+		if _, isDbg := ref.(*ssa.DebugRef); isDbg {
+			continue
+		}
+		pc, ok := ref.(*ssa.Call)
+		if !ok || pc.Call.Value != ssa.Value(h.Params[idx]) {
+			return false
+		}
+		n++
+	}
+	return n > 0
 }
